@@ -13,9 +13,22 @@ def shuffle_fn(ctx):
     """the hook method of the Shuffle feature that re-writes the selection state"""
     from sa.srcmodel import AnalysisError
     cls = ctx.model.cls(CLS)
-    found = [fi for fi in cls.methods.values() if any(
-        isinstance(n, ast.Subscript) and isinstance(n.ctx, ast.Store) and
-        'tests_by_layer_name' in norm(n.value) for n in ast.walk(fi.node))]
+    def writes_state(fi):
+        aliases = {'tests_by_layer_name'}
+        for n in ast.walk(fi.node):
+            if isinstance(n, ast.Assign) and len(n.targets) == 1 and isinstance(n.targets[0], ast.Name) \
+                    and (dotted(n.value) or '').endswith('tests_by_layer_name'):
+                aliases.add(n.targets[0].id)
+        for n in ast.walk(fi.node):
+            if isinstance(n, ast.Subscript) and isinstance(n.ctx, ast.Store) and \
+                    (norm(n.value).split('.')[-1] in aliases):
+                return True
+            if isinstance(n, ast.Call) and isinstance(n.func, ast.Attribute) and \
+                    n.func.attr in ('update', '__setitem__', 'setdefault') and \
+                    norm(n.func.value).split('.')[-1] in aliases:
+                return True
+        return False
+    found = [fi for fi in cls.methods.values() if writes_state(fi)]
     if len(found) != 1:
         raise AnalysisError('anchor vanished: the method of shuffle.Shuffle that stores the shuffled '
                             'suites in tests_by_layer_name (found %d)' % len(found))
